@@ -31,18 +31,51 @@ func c09Setup(blueGreen bool) (*RolloutReconciler, *RolloutContext, *vCalls) {
 }
 
 // nextStepIndex is a documented user-editable status field (step jump): any int32 must be tolerated.
-func VerifC09_CanaryNormalRollingNoPanic() {
-	rec, c, _ := c09Setup(false)
+// One harness per starting sub-state (they run in parallel).
+func c09NormalRolling(blueGreen bool, state int, label string) {
+	vState = state
+	rec, c, _ := c09Setup(blueGreen)
 	panicked := verifrt.NoPanic(func() { _ = rec.handleNormalRolling(c) })
-	verifrt.Assert(!panicked, "C09.canary.normalRolling.nopanic")
+	verifrt.Assert(!panicked, label)
 	verifrt.Cover("done")
 }
 
-func VerifC09_BlueGreenNormalRollingNoPanic() {
-	rec, c, _ := c09Setup(true)
-	panicked := verifrt.NoPanic(func() { _ = rec.handleNormalRolling(c) })
-	verifrt.Assert(!panicked, "C09.bluegreen.normalRolling.nopanic")
-	verifrt.Cover("done")
+func VerifC09_CanaryNormalRollingNoPanic_Init() {
+	c09NormalRolling(false, 0, "C09.canary.normalRolling.nopanic")
+}
+func VerifC09_CanaryNormalRollingNoPanic_Upgrade() {
+	c09NormalRolling(false, 1, "C09.canary.normalRolling.nopanic")
+}
+func VerifC09_CanaryNormalRollingNoPanic_TrafficRouting() {
+	c09NormalRolling(false, 2, "C09.canary.normalRolling.nopanic")
+}
+func VerifC09_CanaryNormalRollingNoPanic_MetricsAnalysis() {
+	c09NormalRolling(false, 3, "C09.canary.normalRolling.nopanic")
+}
+func VerifC09_CanaryNormalRollingNoPanic_Paused() {
+	c09NormalRolling(false, 4, "C09.canary.normalRolling.nopanic")
+}
+func VerifC09_CanaryNormalRollingNoPanic_Ready() {
+	c09NormalRolling(false, 5, "C09.canary.normalRolling.nopanic")
+}
+func VerifC09_CanaryNormalRollingNoPanic_Completed() {
+	c09NormalRolling(false, 6, "C09.canary.normalRolling.nopanic")
+}
+func VerifC09_CanaryNormalRollingNoPanic_Unknown() {
+	c09NormalRolling(false, 7, "C09.canary.normalRolling.nopanic")
+}
+
+func VerifC09_BlueGreenNormalRollingNoPanic_InitUpgrade() {
+	c09NormalRolling(true, verifrt.Concrete(verifrt.IntRange("st.state", 0, 1)), "C09.bluegreen.normalRolling.nopanic")
+}
+func VerifC09_BlueGreenNormalRollingNoPanic_RoutingAnalysis() {
+	c09NormalRolling(true, verifrt.Concrete(verifrt.IntRange("st.state", 2, 3)), "C09.bluegreen.normalRolling.nopanic")
+}
+func VerifC09_BlueGreenNormalRollingNoPanic_PausedReady() {
+	c09NormalRolling(true, verifrt.Concrete(verifrt.IntRange("st.state", 4, 5)), "C09.bluegreen.normalRolling.nopanic")
+}
+func VerifC09_BlueGreenNormalRollingNoPanic_CompletedUnknown() {
+	c09NormalRolling(true, verifrt.Concrete(verifrt.IntRange("st.state", 6, 7)), "C09.bluegreen.normalRolling.nopanic")
 }
 
 // a plan edit while progressing (step count is immutable then, everything else may change)
